@@ -241,7 +241,7 @@ func checkC11(r *Run) {
 }
 
 func checkC12(r *Run) {
-	r.Explain = "Decides the lost-wake-up condition and the wait structure: A15b every Broadcast on the Waiter's condition variable must be issued with the waiter's mutex held, because the waiter tests the ring and sleeps under that mutex while producers change the ring outside it — (*Waiter).Set broadcasts without the mutex (KNOWN-FINDING: the consumer can park in Wait with a message in the ring until something else is written); the cancel goroutine broadcasts under the mutex; Waiter.Next calls Wait under the mutex inside the loop that re-tests TryNext and does not release the mutex between the failed test and Wait; (*Waiter).Set signals after the Set that publishes, never before; POLL Poller.Next's loop re-tests TryNext in every iteration and its only wait is time.Sleep(p.interval); CLOSE Writer.Close waits only for poll's done channel, which poll's deferred close always closes. ALERT advances (shared with C11): every delivering path of TryNext moves the read index past the delivered message."
+	r.Explain = "Decides the lost-wake-up condition and the wait structure: A15b every Broadcast on the Waiter's condition variable must be issued with the waiter's mutex held, because the waiter tests the ring and sleeps under that mutex while producers change the ring outside it — (*Waiter).Set broadcasts without the mutex (KNOWN-FINDING: the consumer can park in Wait with a message in the ring until something else is written); the cancel goroutine broadcasts under the mutex; Waiter.Next calls Wait under the mutex inside the loop that re-tests TryNext and does not release the mutex between the failed test and Wait; (*Waiter).Set signals after the Set that publishes, never before; POLL Poller.Next's loop re-tests TryNext in every iteration and its only wait is time.Sleep(p.interval); CLOSE Writer.Close waits only for poll's done channel, which poll's deferred close always closes. ALERT advances (shared with C11): every delivering path of TryNext moves the read index past the delivered message. REENTER (*Waiter).Next holds the waiter's mutex while TryNext runs the user's alerter, so nothing reachable from diode.Writer.Write may take that mutex (an alerter that logs to the same diode would block the consumer on itself)."
 	r.NotDec = "Liveness over all schedules beyond this necessary condition."
 	r.Assume = []string{"repairing Waiter.Set would make producers take the mutex the consumer holds while it runs the user's alerter: not a small safe repair (conflicts with C10's non-blocking producers)"}
 	p := r.Use("J")
@@ -254,6 +254,8 @@ func checkC12(r *Run) {
 	// then on: later messages sit in the ring with the consumer idle until something laps it again
 	ruleReaderAdvances(r, p, "ALERT")
 	ruleCloseOrder(r, p, "CLOSE")
+	ruleNoReentrantLock(r, p, "REENTER")
+	r.Floor("REENTER", 1)
 	r.Floor("A15b", 3)
 	r.Floor("POLL", 2)
 	r.Floor("CLOSE", 3)
